@@ -103,6 +103,9 @@ META = dict(
                "float32 re-evaluation of the length condition",
 )
 
+META["rule"] += (
+    " " + 'Added later: the generators also through the dispatcher `Network.Model(name, **kw)` with the same seed (same graph, as a Network object).')
+
 EPS_FLOAT_SLACK = 1e-5
 HARD_KILL_S = 25
 
